@@ -73,7 +73,7 @@ def probes(R, C, state):
         if R > 0:
             P += [("delete_rows:last", "delete_rows p0 2 0 %s" % v), ("delete_rows:first", "delete_rows p0 2 %s 0" % v),
                   ("get_rows_list:last", "get_rows_list p0 2 0 %s" % v), ("get_ranged_rows_list:first", "get_ranged_rows_list p0 2 %s 0" % v),
-                  ("change_senses:last", "change_senses p0 2 0 L %s G" % v)]
+                  ("change_senses:last", "change_senses p0 2 0 G %s L" % v)]
     for v in cb:
         P += [("delete_col", "delete_col p0 %s" % v), ("change_objcoef", "change_objcoef p0 %s 5" % v),
               ("change_bound:col", "change_bound p0 %s L 1" % v), ("change_bound:colU", "change_bound p0 %s U 1" % v),
@@ -89,7 +89,7 @@ def probes(R, C, state):
         if C > 0:
             P += [("delete_cols:last", "delete_cols p0 2 0 %s" % v), ("delete_cols:first", "delete_cols p0 2 %s 0" % v),
                   ("get_bounds_list:last", "get_bounds_list p0 2 0 %s" % v), ("get_obj_list:first", "get_obj_list p0 2 %s 0" % v),
-                  ("get_columns_list:last", "get_columns_list p0 2 0 %s" % v), ("change_bounds:last", "change_bounds p0 2 0 L 2 %s U 3" % v)]
+                  ("get_columns_list:last", "get_columns_list p0 2 0 %s" % v), ("change_bounds:last", "change_bounds p0 2 0 L 7/3 %s U 3" % v)]
     # names
     P += [("delete_named_row:unknown", "delete_named_row p0 nosuchrow"), ("delete_named_column:unknown", "delete_named_column p0 nosuchcol"),
           ("get_row_index:unknown", "get_row_index p0 nosuchrow"), ("get_column_index:unknown", "get_column_index p0 nosuchcol"),
@@ -106,16 +106,23 @@ def probes(R, C, state):
               ("add_cols:dup-within", "add_cols p0 2 1 0 5 SAME 0 1 0 5 SAME 0"),
               ("delete_named_columns_list:last-unknown", "delete_named_columns_list p0 2 x nosuchcol"),
               ("get_named_x:rowname", "get_named_x p0 c1"), ("delete_named_column:rowname", "delete_named_column p0 c1")]
+    # an index or name listed twice in a delete list
+    if R > 1:
+        P += [("delete_rows:dup", "delete_rows p0 2 0 0"), ("delete_rows:dup3", "delete_rows p0 3 1 0 1"),
+              ("delete_named_rows_list:dup", "delete_named_rows_list p0 2 c1 c1")]
+    if C > 1:
+        P += [("delete_cols:dup", "delete_cols p0 2 0 0"), ("delete_cols:dup3", "delete_cols p0 3 1 0 1"),
+              ("delete_named_columns_list:dup", "delete_named_columns_list p0 2 x x")]
     # selectors
     for s in ("X", "l", "#0", "#255", "N"):
         P += [("new_row:sense", "new_row p0 1 %s NEWR" % s), ("add_row:sense", "add_row p0 1 %s NEWR 0" % s),
               ("add_ranged_row:sense", "add_ranged_row p0 1 %s 2 NEWR 0" % s), ("add_rows:sense", "add_rows p0 2 1 L NEWR1 0 2 %s NEWR2 0" % s)]
         if R > 0:
-            P += [("change_sense:sense", "change_sense p0 0 %s" % s), ("change_senses:sense", "change_senses p0 2 0 L 1 %s" % s)]
+            P += [("change_sense:sense", "change_sense p0 0 %s" % s), ("change_senses:sense", "change_senses p0 2 0 G 1 %s" % s)]
     for s in ("X", "l", "u", "#0", "E"):
         if C > 0:
             P += [("change_bound:lu", "change_bound p0 0 %s 1" % s), ("get_bound:lu", "get_bound p0 0 %s" % s),
-                  ("change_bounds:lu", "change_bounds p0 2 0 L 2 1 %s 3" % s)]
+                  ("change_bounds:lu", "change_bounds p0 2 0 L 7/3 1 %s 3" % s)]
     for s in (0, 2, -2, 7):
         P.append(("change_objsense:value", "change_objsense p0 %d" % s))
     # parameters
